@@ -3,7 +3,7 @@
 From Coq Require Import List Arith Bool Lia.
 Import ListNotations.
 From WG Require Import Algo.EssSpec Algo.EssStatements Algo.EssSpecFacts Algo.Ess
-  Algo.EssMachineStatements Algo.EssFacts.
+  Algo.EssMachineStatements Algo.EssFacts Algo.EssSymmStatements Algo.EssSymmFacts.
 
 (** level-iteration BFS computes shortest-path distances; [None] exactly when unreachable *)
 Theorem C16_bfs_dist : S_bfs_dist.
@@ -78,6 +78,29 @@ Print Assumptions C16_symm_radius_refuted.
 Theorem C16_allcc_step_invariant_partial : S_tighten_step_invariant.
 Proof. exact tighten_step_invariant. Qed.
 Print Assumptions C16_allcc_step_invariant_partial.
+
+(** ---- the symmetric variant (run_symm) ---- *)
+
+(** distances of a symmetric graph are symmetric *)
+Theorem C16_symm_dist : S_symm_dist.
+Proof. exact symm_dist. Qed.
+Print Assumptions C16_symm_dist.
+
+(** every visit of run_symm preserves lF <= ecc <= uF, dL <= D (attained), R <= rU (attained
+    once below n/2): everything except the clause broken by defect 2 *)
+Theorem C16_symm_step_invariant : S_symm_step_invariant.
+Proof. exact symm_step_invariant. Qed.
+Print Assumptions C16_symm_step_invariant.
+
+Theorem C16_symm_run_invariant : S_symm_run_invariant.
+Proof. exact symm_run_invariant. Qed.
+Print Assumptions C16_symm_run_invariant.
+
+(** at the exit of run_symm the eccentricities and the diameter are exact and the radius is
+    never under-estimated (it can be over-estimated: C16_symm_radius_refuted) *)
+Theorem C16_symm_exit_exact_partial : S_symm_exit_exact.
+Proof. exact symm_exit_exact. Qed.
+Print Assumptions C16_symm_exit_exact_partial.
 
 (** non-vacuity: the documentation's example graph, a legal run reaching the exit of level
     All, accepted by the checker *)
